@@ -21,25 +21,25 @@ try:
     d1 = run(["/venv/bin/python", os.path.join(out, "demo.py"), wt], cwd=wt)
     res["demo_with_patch_exit"] = d1.returncode
     res["demo_with_patch_output"] = (d1.stdout + d1.stderr)[-600:]
-finally:
-    run(["git", "-C", "/repo", "worktree", "remove", "--force", wt])
+except Exception as e:
+    res["error"] = str(e)
 ok = res.get("patch_applies") and res["demo_without_patch_exit"] == 0 and res["demo_with_patch_exit"] != 0 and "passed" in res["tests_with_patch"] and "failed" not in res["tests_with_patch"]
 res["confirmed"] = bool(ok)
 caught = {}
-if ok:
-    run(["git", "-C", "/repo", "apply", os.path.join(out, "patch.diff")])
-    try:
+try:
+    if ok:
+        # the checks run against the patched scratch worktree ($CARD_UTILS_REPO), /repo itself stays untouched
         for c in checks:
-            env = dict(os.environ, VERIF_SECONDS=os.environ.get("VERIF_SECONDS", "12"))
+            env = dict(os.environ, VERIF_SECONDS=os.environ.get("VERIF_SECONDS", "12"), CARD_UTILS_REPO=wt)
             p = run(["python3", "check.py", c, "--tier", "quick"], cwd=V, env=env)
             lines = [l for l in p.stdout.splitlines() if l.startswith("VIOLATION") or l.strip().startswith("why:")]
             caught[c] = {"exit": p.returncode, "first": [l[:300] for l in lines[:2]]}
-    finally:
-        run(["git", "-C", "/repo", "checkout", "--", "."])
+finally:
+    run(["git", "-C", "/repo", "worktree", "remove", "--force", wt])
 meta = json.load(open(os.path.join(out, "meta.json")))
 meta["confirmation"] = res
 meta["what_i_ran"] = ("scratch worktree of /repo HEAD: demo.py (exit 0), git apply patch.diff, pytest (all pass), demo.py (exit != 0); "
-                      "then patch applied to /repo, quick checks run, git checkout -- .")
+                      "then the /verif quick checks with CARD_UTILS_REPO pointing at the patched worktree (same code path as /repo); worktree removed")
 meta["checks"] = caught
 dst = os.path.join(V, "seeded", name)
 if ok:
